@@ -120,3 +120,16 @@ Theorem C07_requested_type_to_stored_fill : forall k sz be cx,
             (components (mkCell k' sz' be' cx) img) = true.
 Proof. exact requested_type_to_stored_fill. Qed.
 Print Assumptions C07_requested_type_to_stored_fill.
+
+(* ---- after ANY history of public API calls in continuous mode without compression or checksums
+   (rf_write and rf_write_blocks in any mix; the extension splits block calls), every file is a single
+   block exposing every slot of its window; the refinement of the Spec (written = stored, everything
+   else exposed = fill, a file only if a slot was written) is C01_api_history_continuous_unchunked *)
+From DRF Require Import Model.PyWriter Proofs.PyApiHistory.
+
+Theorem C07_api_files_full_block : forall c ops, vcfg c -> c_chunk c = false -> c_cont c = true ->
+  Forall api_arg_ok ops ->
+  Forall (fun a => f_index a = [(wlo c (f_ms a), 0)] /\ zlen (f_data a) = whi c (f_ms a) - wlo c (f_ms a))
+         (all_files (p_w (fold_left (api_state c) ops py_init))).
+Proof. exact api_files_full_block. Qed.
+Print Assumptions C07_api_files_full_block.
